@@ -225,7 +225,13 @@ def sentinels(ctx):
     ctx.ob(len(retire) == 2 and all(is_name(x.ast.targets[0].slice, ks) for x in retire), u,
            'a branch that answered STOP is retired under its key spec: %s' % [norm(x.ast) for x in retire])
     chk = [t for t in cfg.nodes if t.kind == 'test' and matches(t.ast, '%s.get(%s, None) is STOP' % (tree, ks))]
-    ctx.ob(len(chk) == 1 and cfg.dominates(chk[0], keyev[0]), u, 'retired branches are skipped before their key is evaluated')
+    okr = len(chk) == 1 and cfg.dominates(chk[0], keyev[0])
+    if okr:
+        hdr_k = keyev[0].loop_stack[-1] if keyev[0].loop_stack else None
+        okr = cfg.find_path(chk[0], {keyev[0]}, avoid={hdr_k} if hdr_k else (), labels=lambda l: l != 'exc',
+                            start_labels=lambda l: l == 'true') is None
+    ctx.ob(okr, u, 'retired branches are skipped before their key is evaluated',
+           '' if okr else 'a branch that answered STOP is evaluated again for the next item')
     lst = [n for n in cfg.nodes if n.kind == 'stmt' and isinstance(n.ast, ast.Return) and n.ast.value is not None
            and any(sentinel_of(p, u, leaf) == 'STOP' for leaf in choice_leaves(n.ast.value))]
     ctx.ob(len(lst) >= 2, u, 'STOP is reported upwards: %s' % [norm(n.ast) for n in lst])
